@@ -12,6 +12,7 @@ import (
 	"strings"
 	"sync"
 	"time"
+	wdog "verifharness/wd"
 
 	"github.com/goatcms/goatcore/app/modules/commonm/commservices"
 	"github.com/goatcms/goatcore/app/modules/commonm/commservices/mutex"
@@ -95,7 +96,7 @@ func cmdLockScript(args []string) error {
 				}(i, m)
 			}
 			finished := 0
-			timeout := time.After(5 * time.Second)
+			timeout := wdog.After(5 * time.Second)
 		wait:
 			for finished < len(hs) {
 				select {
@@ -136,7 +137,7 @@ func cmdLockScript(args []string) error {
 		}()
 		select {
 		case <-in:
-		case <-time.After(5 * time.Second):
+		case <-wdog.After(5 * time.Second):
 			add("serialised", fmt.Sprintf("pair %d %v", pi, pr), "a holder with a compatible lock map did not get inside within 5 s while the other stayed inside")
 		}
 		a.Unlock()
@@ -168,7 +169,7 @@ func cmdLockScript(args []string) error {
 		select {
 		case <-waiting:
 			time.Sleep(3 * time.Millisecond) // H2 is now parked on x (or about to be)
-		case <-time.After(2 * time.Second):
+		case <-wdog.After(2 * time.Second):
 			mutex.VerifHook = nil
 			add("infra:hook-not-reached", fmt.Sprintf("triple %d", ti), "H2 never reached lock.next for x")
 			h1.Unlock()
@@ -183,13 +184,13 @@ func cmdLockScript(args []string) error {
 		}()
 		select {
 		case <-h3in:
-		case <-time.After(5 * time.Second):
+		case <-wdog.After(5 * time.Second):
 			add("serialised", fmt.Sprintf("triple %d %v", ti, tr), "a holder compatible with everything held did not get inside within 5 s while another request was waiting for a busy name")
 		}
 		h1.Unlock()
 		select {
 		case <-h2in:
-		case <-time.After(5 * time.Second):
+		case <-wdog.After(5 * time.Second):
 			add("deadlock", fmt.Sprintf("triple %d %v", ti, tr), "the waiting holder never got its turn after the first one left")
 			return finish(executed, byKey, examples, samples)
 		}
@@ -257,7 +258,7 @@ func cmdLockTrace(args []string) error {
 		go func() { wg.Wait(); close(done) }()
 		select {
 		case <-done:
-		case <-time.After(20 * time.Second):
+		case <-wdog.After(20 * time.Second):
 			mu.Lock()
 			emit(map[string]interface{}{"ev": "hang"})
 			mu.Unlock()
@@ -357,7 +358,7 @@ func cmdLockLists(args []string) error {
 			if err != nil {
 				add("run-error", script, err.Error())
 			}
-		case <-time.After(10 * time.Second):
+		case <-wdog.After(10 * time.Second):
 			mutex.VerifHook = nil
 			add("hang", script, "pip:run did not finish")
 			continue
